@@ -1912,6 +1912,15 @@ class Method:
         )
         answer.extend(types)
 
+        # A flattened map field is annotated with its value type, which may
+        # reside in a different module than the (synthetic) entry message.
+        if not recursive:
+            for f in self.flattened_fields.values():
+                if f.map:
+                    value = f.type.fields["value"]
+                    if value.message or value.enum:
+                        answer.append(value.type)
+
         if not self.void:
             answer.append(self.client_output)
             answer.extend(self.client_output.field_types)
